@@ -19,7 +19,7 @@ func aggCfg(id, tier string) agg.Config {
 			"gov toggle acoin", "gov toggle ext", "gov enable false", "gov enable true", "reimport",
 		}}
 		if tier == "thorough" {
-			c.Depth = 8
+			c.Depth = 10
 		}
 		return c
 	case "C12":
@@ -33,7 +33,7 @@ func aggCfg(id, tier string) agg.Config {
 			"cc acoin u1 u1 3", "cc bcoin u1 u1 2", "ce mod bcoin u1 u1 1", "ce mod acoin u1 u1 1", "ce ext v:ext u1 u1 2", "cc v:ext u1 u1 1",
 		}}
 		if tier == "thorough" {
-			c.Depth = 7
+			c.Depth = 8
 		}
 		return c
 	}
